@@ -418,6 +418,13 @@ def main():
                                       "gen_units_failed_closed_see_the_comment_above.\n")
         except OSError:
             pass
+        # a stale compiled table must not keep the theorems alive either
+        import os
+        for ext in (".vo", ".vos", ".vok", ".glob"):
+            try:
+                os.remove(out_path[:-2] + ext)
+            except OSError:
+                pass
         return 1
     try:
         old = open(out_path).read()
